@@ -37,6 +37,10 @@ CHECKS["C09"] = dict(cat="model_checking", design="DESIGN.md §4 C09",
    text="FieldsDef.tla transcribes encoding/json's field rule (unexported / '-' skipped, name part of the tag, '-,' , embedded structs flattened unless named) and gomacro's rule; TLC checks that they agree on every field of the universe (exported? x json tag shapes x options x gomacro ignore, plain and embedded) and exports it. Each field, alone and in random combinations, becomes a real struct reached as a jsonb column; TraceFields.tla compares, per struct: the keys json.Marshal really writes (binary compiled from the synthesised package; also validates the spec's transcription), the keys reported by the analysis, the property names of the generated TypeScript interface, the keys read / written by the Dart routines and the keys accepted / checked by the JSON validator; plus the metamorphic half (adding an ignored field leaves the three outputs byte-identical).",
    note="Trusted: TLC; encoding/json as ground truth; the TypeScript parser and the token-level extractors for Dart routines and PL/pgSQL validators (harness/internal/tsparse, proj). omitempty/string options are exercised for naming only; the duplicate-key rule of encoding/json is out of scope.",
    tech="TLA+ transcription of encoding/json's field rule checked against the model of gomacro by TLC + verdict-style trace validation (TraceFields.tla) against real json.Marshal output and parsed generator outputs")
+CHECKS["C07"] = dict(cat="model_checking", design="DESIGN.md §4 C07",
+   text="MapOrder.tla makes every range over a Go map an action that picks an arbitrary permutation (visit order of the analysed types, Cache.Imports) and states determinism as refinement to an order-free canonical output; TLC explores all orders. Binding to the code is by repetition, since Go's map order cannot be dictated: seeded full-feature packages (>=3 imported packages per Go header, several unions per struct, several Dart files, a table struct) are analysed and generated for all 8 generator entry points R times per process in P processes, and cmd/gomacro -config runs end to end twice; TraceDeterminism.tla requires one outcome, one file set and one hash per (program, target, file).",
+   note="A surviving order dependence at a site with >=3 entries is missed with probability <= (1/3)^(R*P-1) per site (R*P = 24 quick, 200 thorough). Trusted: TLC, sha256.",
+   tech="TLA+ model with map iteration order as nondeterminism (MapOrder.tla) checked by TLC + verdict-style trace validation (TraceDeterminism.tla) of repeated real runs in and across processes")
 NOT_APPLICABLE = {}
 ALL = ["C%02d" % i for i in range(1, 21)]
 
